@@ -41,7 +41,13 @@ use dmntk_feel::values::Value;
 use dmntk_feel::{value_null, Name};
 use dmntk_model::model::Definitions;
 use std::collections::HashMap;
+#[cfg(not(dmntk_verif))]
 use std::sync::{Arc, RwLock, RwLockReadGuard};
+
+#[cfg(dmntk_verif)]
+use dmntk_verif_sync::{RwLock, RwLockReadGuard};
+#[cfg(dmntk_verif)]
+use std::sync::Arc;
 
 ///
 #[derive(Debug)]
